@@ -1,11 +1,15 @@
 package main
 
 import (
+	"errors"
 	"fmt"
 	"math"
 	"math/big"
 	"math/rand"
+	"net/url"
+	"os"
 	"reflect"
+	"regexp"
 	"runtime"
 	"sort"
 	"strconv"
@@ -254,6 +258,43 @@ func streamBuiltins(o *Out, r *rand.Rand, n int, thorough bool) {
 				want, ok := nativeBuiltin(bname, v)
 				if ok && (out.err != nil || !sameValue(want, out.val)) {
 					o.Fail(Failure{Oracle: "go-conversion", Key: "builtin:" + bname, Input: src + fmt.Sprintf(" with v=%v (%T)", v, v), Detail: fmt.Sprintf("Go gives %v (%T), builtin gave %v (%T) err=%v", want, want, out.val, out.val, out.err)})
+				}
+			}
+		}
+	}
+	// the same builtins on values only a host can supply: typed nil pointers whose types implement error / fmt.Stringer, other
+	// Stringers and errors, sized numbers, byte slices, structs - against fmt.Sprint / reflect, never a panic or run-time error
+	var nilURL *url.URL
+	var nilRe *regexp.Regexp
+	var nilPathErr *os.PathError
+	var nilBig *big.Int
+	var nilErr error
+	hostVals := []interface{}{nilURL, nilRe, nilPathErr, nilBig, nilErr, &url.URL{Scheme: "http", Host: "h"}, regexp.MustCompile("a+"), big.NewInt(77), time.Duration(1500) * time.Millisecond,
+		errors.New("plain error"), &os.PathError{Op: "open", Path: "/x", Err: errors.New("gone")}, int32(5), uint8(7), float32(1.5), struct{ X int }{1}, &struct{ X int }{2},
+		[]string{"a", "b"}, map[string]int64{"a": 1}, time.Unix(0, 0).UTC()}
+	for _, bname := range builtins {
+		for _, v := range hostVals {
+			for _, wrapped := range []bool{false, true} {
+				vars := map[string]interface{}{"v": v}
+				arg := "v"
+				if wrapped {
+					vars["v"] = []interface{}{v}
+					arg = "v[0]"
+				}
+				src := bname + "(" + arg + ")"
+				out := runScript(src, vars, coreEnv)
+				o.Sum.Evaluations++
+				o.Sum.Hist["builtin-host:"+bname]++
+				in := src + fmt.Sprintf(" with v = %T(%v)", v, v)
+				if out.panicked {
+					o.Fail(Failure{Oracle: "no-panic", Key: "panic:" + bname, Input: in, Detail: fmt.Sprint(out.panicVal)})
+					continue
+				}
+				if bname == "toString" || bname == "typeOf" || bname == "kindOf" {
+					want, _ := nativeBuiltin(bname, v)
+					if out.err != nil || !sameValue(want, out.val) {
+						o.Fail(Failure{Oracle: "go-conversion", Key: "builtin-host:" + bname, Input: in, Detail: fmt.Sprintf("Go gives %q, builtin gave %v (%T) err=%v", want, out.val, out.val, out.err)})
+					}
 				}
 			}
 		}
